@@ -40,7 +40,24 @@ def setup():
         sh("cp -a %s %s" % (os.path.join(VERIF, ".cache", "target"), os.path.join(CACHE, "target")))
 
 
+def seeded():
+    """The independently seeded changes kept under /verif/seeded/<dir>/ (meta.json names the property, the patch and
+    the report key that must appear); they run through the same loop as the hand-written mutants."""
+    out = []
+    root = os.path.join(VERIF, "seeded")
+    for d in sorted(os.listdir(root)) if os.path.isdir(root) else []:
+        mp = os.path.join(root, d, "meta.json")
+        if not os.path.exists(mp):
+            continue
+        meta = json.load(open(mp))
+        out.append({"name": "seeded_" + d, "prop": meta["property"], "patch": os.path.join(root, d, meta.get("patch", "patch.diff")),
+                    "expect": meta.get("expect_key", ""), "what": meta.get("summary", ""), "expect_status": meta.get("status", "caught")})
+    return out
+
+
 def apply(m):
+    if m.get("patch"):
+        return sh("git -C %s apply %s" % (WT, m["patch"])).returncode == 0
     p = os.path.join(WT, m["file"])
     s = open(p).read()
     old, new = m["old"], m["new"]
@@ -70,7 +87,7 @@ def main():
     ap.add_argument("--keep", action="store_true")
     ap.add_argument("--baseline", action="store_true", help="also run every property on the unmutated scratch tree first")
     a = ap.parse_args()
-    muts = MUTANTS
+    muts = MUTANTS + seeded()
     if a.only:
         names = set(a.only.split(","))
         muts = [m for m in muts if m["name"] in names or m["prop"] in names]
@@ -99,7 +116,7 @@ def main():
         else:
             code, out = run_check(m["prop"])
             viol = [l for l in out.splitlines() if l.strip().startswith("violation ")]
-            hit = [l for l in viol if m["expect"] in l]
+            hit = [l for l in viol if m["expect"] and m["expect"] in l]
             if code == 3:
                 status = "DID-NOT-COMPILE"
             elif hit:
